@@ -167,6 +167,7 @@ type FnVC struct {
 	unmodelled map[string]bool
 	constCapture map[ssa.Value]TV
 	prop     string // the property being checked: clauses tagged for other properties only are ignored
+	privCells []privCell // local variable cells no callee can write (see privateCell)
 	usesSliceTag bool
 	compValType map[string]types.Type
 	axiomDone map[string]bool
@@ -180,6 +181,8 @@ type FnVC struct {
 	keyTerms map[string][]string // key sort -> terms used as map keys (for model projection)
 	nSmoke   int
 }
+
+type privCell struct{ ref, comp string }
 
 type faInfo struct {
 	sort string
@@ -464,6 +467,12 @@ func (vc *FnVC) havocAll(st *State, keep ...string) {
 			}
 		}
 	}
+	privOld := map[int]string{}
+	for i, pc := range vc.privCells {
+		if _, ok := vc.compSort[pc.comp]; ok && !kept[compClass(pc.comp)] {
+			privOld[i] = sel(vc.cur(oldState, pc.comp), pc.ref)
+		}
+	}
 	st.comp = map[string]string{}
 	oldBase := st.base
 	st.base = map[string]string{}
@@ -492,6 +501,12 @@ func (vc *FnVC) havocAll(st *State, keep ...string) {
 	// the allocation counter only grows
 	n := vc.havocComp(st, "alloc")
 	vc.assume("(>= " + n + " " + alloc + ")")
+	// local variable cells that only this function writes keep their content
+	for i, pc := range vc.privCells {
+		if ov, ok := privOld[i]; ok {
+			vc.assume(eq(sel(vc.cur(st, pc.comp), pc.ref), ov))
+		}
+	}
 }
 
 // typeTok names a Go type for use in component names. Two types that Go lets alias behind a
@@ -734,6 +749,16 @@ func (vc *FnVC) prepareCFG() []*ssa.BasicBlock {
 		li.ordinal = i
 		if vc.fc != nil {
 			li.spec = vc.fc.Loops[i]
+			if all := vc.fc.Loops[-1]; all != nil {
+				merged := &LoopSpec{Ordinal: i}
+				merged.Invariants = append(merged.Invariants, all.Invariants...)
+				merged.Assumes = append(merged.Assumes, all.Assumes...)
+				if li.spec != nil {
+					merged.Invariants = append(merged.Invariants, li.spec.Invariants...)
+					merged.Assumes = append(merged.Assumes, li.spec.Assumes...)
+				}
+				li.spec = merged
+			}
 		}
 		vc.loopOrd = append(vc.loopOrd, li)
 	}
